@@ -355,4 +355,56 @@ theorem sumOver_compL_eq_get (K : Ktensor α) (hw : ∀ r < K.weights.length, vg
 
 end terms
 
+/-! ### `tt_loglikelihood` -/
+
+section loglik
+variable (log : α → α)
+
+theorem logLik_model (o : NumOps α) (X : Data α) (K : Ktensor α) :
+    (logLik o X K).1 = normalizeAbsorb0 o K := by
+  unfold logLik; cases X <;> rfl
+
+theorem normalizeAbsorb0_unit_weights (o : NumOps α) (K : Ktensor α) :
+    ∀ r < (normalizeAbsorb0 o K).weights.length, vget (normalizeAbsorb0 o K).weights r = 1 := by
+  intro r hr
+  unfold normalizeAbsorb0 absorb0 at hr ⊢
+  simp only [List.length_map] at hr
+  exact vget_map_const_one hr
+
+theorem logLik_dense (T : Dense α) {K : Ktensor α} (h : NonnegK K) {R : Nat} (hs : ShapeK T.shape R K)
+    (hN : 0 < T.shape.length) :
+    (logLik (NumOps.ofField log) (.dense T) K).2 =
+      ((List.range (numel T.shape)).map fun k =>
+        if vget T.data k = 0 then 0
+        else vget T.data k * log ((normalizeAbsorb0 (NumOps.ofField log) K).get (ind2sub T.shape k))).sum -
+      ((allSubs T.shape).map (normalizeAbsorb0 (NumOps.ofField log) K).get).sum := by
+  rw [normalizeAbsorb0_sum log h hs hN]
+  show llCombine _ _ = _
+  unfold llCombine
+  congr 2
+  apply List.map_congr_left
+  intro k _
+  unfold llTermDense
+  show (if decide (vget T.data k = 0) = true then _ else _) = _
+  simp only [decide_eq_true_eq]
+  rfl
+
+theorem logLik_sparse (S : Sparse α) {K : Ktensor α} (h : NonnegK K) {R : Nat} (hs : ShapeK S.shape R K)
+    (hN : 0 < S.shape.length) :
+    (logLik (NumOps.ofField log) (.sparse S) K).2 =
+      ((List.range S.subs.length).map fun k =>
+        vget S.vals k * log ((normalizeAbsorb0 (NumOps.ofField log) K).get (S.subs.getD k []))).sum -
+      ((allSubs S.shape).map (normalizeAbsorb0 (NumOps.ofField log) K).get).sum := by
+  rw [normalizeAbsorb0_sum log h hs hN]
+  show llCombine _ _ = _
+  unfold llCombine
+  congr 2
+  apply List.map_congr_left
+  intro k _
+  unfold llTermSparse
+  rw [sumOver_compL_eq_get _ (normalizeAbsorb0_unit_weights _ K)]
+  rfl
+
+end loglik
+
 end Pyttb.CpApr
